@@ -17,7 +17,7 @@ def ctor_objects(log, layer):
             inside = True
         elif k == "ctor<" and e[2] == layer:
             break
-        elif inside and k == "locknew" and e[2].startswith("R") and X is None:
+        elif inside and k == "locknew" and e[2].startswith("R") and X is None and (len(e) < 4 or e[3] != "ShutdownHelper"):
             X = e[2]
         elif inside and k == "evnew":
             E = e[2]
